@@ -264,6 +264,8 @@ type recorder struct {
 	merged    bool
 	roots     int
 	persisted int
+	firstSeg  uint64 // id of the first segment of the last root
+	tailMerge bool   // an introduceMerge root whose FIRST segment survived with pending deletions
 }
 
 var rec = &recorder{}
@@ -271,6 +273,7 @@ var rec = &recorder{}
 func (r *recorder) reset(active bool) {
 	r.mu.Lock()
 	r.active, r.last, r.segs, r.del, r.merged, r.roots, r.persisted = active, time.Now(), 0, 0, false, 0, 0
+	r.firstSeg, r.tailMerge = 0, false
 	r.mu.Unlock()
 }
 
@@ -305,7 +308,19 @@ func (r *recorder) trace(w *index.Writer, kind string, snap *index.Snapshot, x u
 			r.del += d.GetCardinality()
 		}
 	}
+	if len(ss) > 0 {
+		r.firstSeg = ss[0].ID()
+	}
+	r.tailMerge = false
+	if snap.VerifCreator() == "introduceMerge" && len(ss) >= 2 {
+		if d := ss[0].Deleted(); d != nil && !d.IsEmpty() {
+			r.tailMerge = true
+		}
+	}
 }
+
+// protectedSeg: the segment the `tailmerge` planner must leave alone (see tuneConfig)
+var protectedSeg atomic.Uint64
 
 func (r *recorder) idleFor() time.Duration {
 	r.mu.Lock()
@@ -378,6 +393,22 @@ func tuneConfig(cfg bluge.Config, p map[string]string) bluge.Config {
 			ic.MergePlanOptions.SegmentsPerMergeTask, _ = strconv.Atoi(p["mtask"])
 		}
 		ic.MergePlanOptions.TierGrowth = 2.0
+	} else if p["tailmerge"] == "1" {
+		// a planner that merges every segment EXCEPT the protected one: budget 2 (= the protected segment +
+		// one more), rosters that contain the protected segment score worst. With the protected segment the
+		// largest, three segments [P, a, b] become [P, merged(a,b)] and stay like that.
+		ic.MergePlanOptions.FloorSegmentSize = 1
+		ic.MergePlanOptions.SegmentsPerMergeTask = 2
+		ic.MergePlanOptions.CalcBudget = func(int64, int64, *mergeplan.Options) int { return 2 }
+		ic.MergePlanOptions.ScoreSegments = func(segs []mergeplan.Segment, _ *mergeplan.Options) float64 {
+			for _, sg := range segs {
+				if sg.ID() == protectedSeg.Load() {
+					return 1e18
+				}
+			}
+			return -float64(len(segs)) // lower is better: the pair of unprotected segments beats a singleton
+		}
+		ic.MinSegmentsForInMemoryMerge = 1 << 30
 	} else {
 		// merging switched off through the index configuration
 		ic.MergePlanOptions.CalcBudget = func(int64, int64, *mergeplan.Options) int { return 1 << 30 }
@@ -475,6 +506,9 @@ func buildStandard(cs *caseState, p map[string]string, work string) (*built, str
 	upd, _ := strconv.Atoi(p["upd"])
 	if upd > len(cs.docs) {
 		upd = len(cs.docs)
+	}
+	if p["tailmerge"] == "1" {
+		return buildTailMerge(cs, p, w, cfg, dir, closeW)
 	}
 	sizes := partSizes(p["parts"], len(cs.docs))
 	// documents [updFrom, len) get an old version first; they are taken from the LAST part so that the
@@ -634,6 +668,106 @@ func buildStandard(cs *caseState, p map[string]string, work string) (*built, str
 	bt.closeFn = func() {
 		for _, c := range closers {
 			c()
+		}
+		rec.reset(false)
+	}
+	return bt, ""
+}
+
+// buildTailMerge reaches the root [P, M]: P = the first batch's segment, NOT merged, with one pending
+// deletion; M = the merge of the two later segments, introduced by introduceMerge BEHIND P. The answers are
+// read from the Reader taken on exactly that root (no batch in between: introduceSegment would rebuild
+// the offsets).
+//
+//	batch 1: old version of the last document, then documents 0..n-3   -> P
+//	batch 2: document n-2                                            -> a
+//	batch 3: Update(last document)                                   -> b, and P gets its deletion
+func buildTailMerge(cs *caseState, p map[string]string, w *bluge.Writer, cfg bluge.Config, dir string, closeW func()) (*built, string) {
+	n := len(cs.docs)
+	if n < 4 {
+		closeW()
+		return nil, "bad-recipe:tailmerge-needs-4-docs"
+	}
+	protectedSeg.Store(^uint64(0))
+	b := bluge.NewBatch()
+	d := mkDoc(oldVersion(cs, n-1))
+	b.Update(d.ID(), d)
+	for i := 0; i <= n-3; i++ {
+		d := mkDoc(cs.docs[i])
+		b.Update(d.ID(), d)
+	}
+	if err := w.Batch(b); err != nil {
+		closeW()
+		return nil, "err:batch"
+	}
+	rec.mu.Lock()
+	protectedSeg.Store(rec.firstSeg)
+	rec.mu.Unlock()
+	for _, i := range []int{n - 2, n - 1} {
+		b := bluge.NewBatch()
+		d := mkDoc(cs.docs[i])
+		b.Update(d.ID(), d)
+		if err := w.Batch(b); err != nil {
+			closeW()
+			return nil, "err:batch"
+		}
+	}
+	// wait for the merge introduction (and for the writer to go quiet after it); if the merger did not plan
+	// on the last epoch, a batch that changes nothing gives it another epoch to plan on (the root that
+	// batch installs is rebuilt by introduceSegment, the merge is introduced after it)
+	for attempt := 0; attempt < 4; attempt++ {
+		t0 := time.Now()
+		done := false
+		for time.Since(t0) < 1500*time.Millisecond && !done {
+			rec.mu.Lock()
+			done = rec.tailMerge
+			rec.mu.Unlock()
+			time.Sleep(5 * time.Millisecond)
+		}
+		if done {
+			break
+		}
+		nb := bluge.NewBatch()
+		nb.Delete(bluge.Identifier("never-indexed"))
+		if err := w.Batch(nb); err != nil {
+			closeW()
+			return nil, "err:batch"
+		}
+	}
+	quiet := quiesce(3 * time.Second)
+	segs, del, merged := rec.phys()
+	rec.mu.Lock()
+	tail := rec.tailMerge
+	rec.mu.Unlock()
+	bt := &built{phys: fmt.Sprintf("segs=%d merged=%v del=%d tail=%v", segs, merged, del, tail), scores: "-"}
+	if !quiet {
+		bt.phys += " no-quiescence"
+	}
+	if merged && del == 0 {
+		bt.scores = "scm"
+	}
+	rd, err := w.Reader()
+	if err != nil {
+		closeW()
+		return nil, "err:reader"
+	}
+	// (the root moves on only now, see buildStandard; `rd` keeps the offsets introduceMerge computed)
+	bump := bluge.NewBatch()
+	bump.Delete(bluge.Identifier("never-indexed"))
+	if err := w.Batch(bump); err != nil {
+		_ = rd.Close()
+		closeW()
+		return nil, "err:batch"
+	}
+	bt.searchFn = func(req bluge.SearchRequest) (search.DocumentMatchIterator, error) {
+		return rd.Search(context.Background(), req)
+	}
+	bt.count = rd.Count
+	bt.closeFn = func() {
+		_ = rd.Close()
+		closeW()
+		if dir != "" {
+			_ = os.RemoveAll(dir)
 		}
 		rec.reset(false)
 	}
@@ -1417,6 +1551,9 @@ func (h) Exec(line string, out func(string, string), st *hlib.Stats, work string
 		if strings.Contains(phys, "merged=true") {
 			st.Count("phys:merged-segment")
 		}
+		if strings.Contains(phys, "tail=true") {
+			st.Count("phys:merge-behind-deletions")
+		}
 		if strings.Contains(phys, "no-quiescence") {
 			st.Count("phys:no-quiescence")
 		}
@@ -1442,6 +1579,8 @@ func recipeKind(p map[string]string) string {
 		return "offline"
 	case p["multi"] != "" && p["multi"] != "0":
 		return "multisearch"
+	case p["tailmerge"] == "1":
+		return "tail-merge"
 	case p["backup"] == "1":
 		return "backup"
 	case p["reopen"] == "1":
